@@ -109,6 +109,11 @@ pub fn quiet_panics() {
         } else {
             "<non-string panic payload>".to_string()
         };
+        // a panic outside every bracketed call ends the harness (exit code 101); the driver tells a panic of the
+        // code under test (a violation: the harness was not prepared for it) from one of the harness itself
+        if IN_CALL.with(|d| d.get()) == 0 {
+            eprintln!("VH-UNCAUGHT-PANIC at {site}:{}: {msg}", info.location().map(|l| l.line()).unwrap_or(0));
+        }
         if std::env::var("VH_LOUD").is_ok() {
             eprintln!("PANIC at {site}:{}: {msg}", info.location().map(|l| l.line()).unwrap_or(0));
         }
@@ -151,8 +156,13 @@ pub fn start_call_watchdog() {
     });
 }
 
+thread_local! {
+    static IN_CALL: std::cell::Cell<u32> = const { std::cell::Cell::new(0) };
+}
+
 pub fn call_begin() {
     use std::sync::atomic::Ordering::SeqCst;
+    IN_CALL.with(|d| d.set(d.get() + 1));
     CALLS_MADE.fetch_add(1, SeqCst);
     LAST_CALL_EVENT_MS.store(now_ms(), SeqCst);
     CALLS_ACTIVE.fetch_add(1, SeqCst);
@@ -160,6 +170,7 @@ pub fn call_begin() {
 
 pub fn call_end() {
     use std::sync::atomic::Ordering::SeqCst;
+    IN_CALL.with(|d| d.set(d.get().saturating_sub(1)));
     CALLS_ACTIVE.fetch_sub(1, SeqCst);
     LAST_CALL_EVENT_MS.store(now_ms(), SeqCst);
 }
